@@ -28,6 +28,10 @@ def gen_cases(tier, seed):
                 ndesc = rng.randrange(1, 21)
                 vals = rng.sample(range(max(lo, -100), min(hi, 100) + 1), min(ndesc, min(hi, 100) - max(lo, -100) + 1))
                 descs = [[v, f"state {i} of {v}"] for i, v in enumerate(vals)]
+                # names that differ in case or in a trailing / leading blank only are different names
+                near = ["on", "ON", "On ", " on", "Ramp", "Ramp "]
+                for j in range(min(len(descs), len(near)) if len(cases) % 2 else 0):
+                    descs[j][1] = near[j]
                 ops = []
                 for _ in range(12 if tier == "quick" else 60):
                     r = rng.randint(lo, hi)
@@ -70,7 +74,7 @@ def gen_cases(tier, seed):
                 for lo, hi in chunk:
                     n = hi - lo + 1
                     bits = list(range(lo, hi + 1))
-                    spell = ["list", "slice", "slice_step", "name"] + (["int"] if n == 1 else [])
+                    spell = ["list", "slice", "slice_step", "name", "list_desc", "slice_down"] + (["int"] if n == 1 else [])
                     vals = list(range(1 << n)) if n <= (8 if tier == "thorough" else 4) else \
                         sorted({0, 1, (1 << n) - 1, 1 << (n - 1), rng.randrange(1 << n), rng.randrange(1 << n)})
                     ops.append({"op": "setraw", "v": rng.getrandbits(w)})
@@ -84,7 +88,8 @@ def gen_cases(tier, seed):
                             ops.append({"op": "setdata", "v": rng.getrandbits(w), "how": rng.choice(["same", "other"])})
                         ops.append({"op": "bits_get", "bits": bits, "spelling": sp, "name": f"field{lo}_{hi}"})
                         ops.append({"op": "bits_set", "bits": bits, "spelling": sp, "name": f"field{lo}_{hi}", "val": rng.randrange(1 << n)})
-                cases.append({"kind": kind, "t": t, "fn": 1, "fd": 1, "descs": [], "bitdefs": bitdefs, "ops": ops})
+                cases.append({"kind": kind, "t": t, "fn": 1, "fd": 1, "descs": [], "bitdefs": bitdefs, "ops": ops,
+                              "desc_defs": True})
     # bit fields of signed variables (raw values of both signs, fields with and without the sign bit)
     for kind in ("sdo", "pdo"):
         for w, t in {8: 0x2, 16: 0x3, 32: 0x4}.items():
@@ -97,7 +102,7 @@ def gen_cases(tier, seed):
                 for lo, hi in chunk:
                     n = hi - lo + 1
                     bits = list(range(lo, hi + 1))
-                    spell = ["list", "slice", "slice_step", "name"] + (["int"] if n == 1 else [])
+                    spell = ["list", "slice", "slice_step", "name", "list_desc", "slice_down"] + (["int"] if n == 1 else [])
                     for raw in (-1, -(1 << (w - 1)), (1 << (w - 1)) - 1, 0, rng.randrange(-(1 << (w - 1)), 0),
                                 rng.randrange(0, 1 << (w - 1))):
                         ops.append({"op": "setraw", "v": raw})
